@@ -43,7 +43,10 @@ class World:
         warnings.simplefilter("ignore")
         self.loop = new_loop(self.ch, log_events=self.log_events)
         self.net = SimNet(self.loop, self.ch)
-        seams.begin_run(self.loop, self.run_seed)
+        # code under test that draws from `random` (the connector's waiter shuffle, mask keys, boundaries) gets a
+        # per-run seed that is itself a recorded choice: it varies over the search and replays from the tape
+        seed = self.run_seed or self.ch.draw("prng_seed", 0, (1 << 30) - 1)
+        seams.begin_run(self.loop, seed)
         return self
 
     def __exit__(self, et, ev, tb):
